@@ -1185,12 +1185,23 @@ where
     }
 }
 
+// Items are the same when they have the same handle *in the same store*: keys and data of
+// different annotation data sets carry the same (set-local) handles.
+impl<'store, T> ResultItem<'store, T>
+where
+    T: Storable,
+{
+    /// Address of the store that holds the item (for an item of an annotation data set: the set)
+    fn store_addr(&self) -> usize {
+        self.store as *const T::StoreType as *const u8 as usize
+    }
+}
 impl<'store, T> PartialEq for ResultItem<'store, T>
 where
     T: Storable,
 {
     fn eq(&self, other: &Self) -> bool {
-        self.handle() == other.handle()
+        self.handle() == other.handle() && self.store_addr() == other.store_addr()
     }
 }
 impl<'store, T> Eq for ResultItem<'store, T> where T: Storable {}
@@ -1199,6 +1210,7 @@ where
     T: Storable,
 {
     fn hash<H: Hasher>(&self, state: &mut H) {
+        self.store_addr().hash(state);
         self.handle().hash(state)
     }
 }
@@ -1207,7 +1219,7 @@ where
     T: Storable,
 {
     fn partial_cmp(&self, other: &Self) -> Option<Ordering> {
-        Some(self.handle().cmp(&other.handle()))
+        Some(self.cmp(other))
     }
 }
 impl<'store, T> Ord for ResultItem<'store, T>
@@ -1215,7 +1227,10 @@ where
     T: Storable,
 {
     fn cmp(&self, other: &Self) -> Ordering {
-        self.handle().cmp(&other.handle())
+        // sets are held in one vector, so this is the order of the set handles
+        self.store_addr()
+            .cmp(&other.store_addr())
+            .then_with(|| self.handle().cmp(&other.handle()))
     }
 }
 
